@@ -228,6 +228,30 @@ theorem set_spec (ts p : List Term) (hn : ∀ t ∈ ts, noNaN t = true)
   rw [eqvLists_congr _ r (fun x hx y hy => compare_eq_std x y (hnd x hx) (hr y hy))]
   exact strictAscending_unique L _ r s1 hset'.1 (sameElems_trans L (sameElems_symm L hsame) hset'.2)
 
+/-- the `less` function the engine hands to `sort.Slice` (`ts[i].Compare(ts[j], e) == -1`) -/
+def less (x y : Term) : Prop := Order.compare x y = .lt
+
+/-- **less_strict_weak_order**: on NaN-free terms `less` is a strict weak order — irreflexive,
+    transitive, and with a transitive incomparability relation (which is `=`).  This is the
+    PRECONDITION under which `sort.Slice`/`sort.SliceStable` promise a sorted result, so the
+    engine uses the library inside its contract. -/
+theorem less_strict_weak_order (x y z : Term)
+    (hx : noNaN x = true) (hy : noNaN y = true) (hz : noNaN z = true) :
+    ¬ less x x ∧
+    (less x y → less y z → less x z) ∧
+    ((¬ less x y ∧ ¬ less y x) → (¬ less y z ∧ ¬ less z y) → (¬ less x z ∧ ¬ less z x)) ∧
+    ((¬ less x y ∧ ¬ less y x) ↔ Order.compare x y = .eq) := by
+  unfold less
+  have t := compare_trans x y z hx hy hz
+  have inc : ∀ a b : Term, (¬ Order.compare a b = .lt ∧ ¬ Order.compare b a = .lt) ↔ Order.compare a b = .eq := by
+    intro a b
+    rw [compare_antisymm a b]
+    cases Order.compare a b <;> simp [Ordering.swap]
+  refine ⟨by rw [compare_refl]; simp, t.1, ?_, inc x y⟩
+  intro h1 h2
+  rw [inc] at h1 h2 ⊢
+  rw [t.2.2.1 h1, h2]
+
 /-- the contract of Go's `sort.Slice` on the input `ts`: the result is a permutation of `ts` that is
     ascending w.r.t. `less(i, j) := ts[i].Compare(ts[j]) == -1` -/
 def SliceContract (sorter : List Term → List Term) (ts : List Term) : Prop :=
